@@ -53,6 +53,11 @@ CHECKS = {
    text="Every string up to the length bound over 37 YAML-significant characters, every YAML 1.1/1.2 implicit-type spelling and the hostile pool, placed as scalar value, mapping key, sequence item and nested value, is encoded by yaml.Encode and must read back as the same data (strings byte-identical, number kind and value, order) through CUE's decoder, for the default goccy back end and the legacy yaml.v3 one; output that both independent decoders misread is also a violation. JSON documents must mean the same under the YAML and JSON decoders.",
    note="Trusts goccy/go-yaml and go.yaml.in/yaml/v3 only as a 2-of-2 cross-check. Known encoder/decoder findings per back end are listed in known_findings.jsonl.",
    ref="DESIGN.md §3 C11"),
+ "C12": dict(engine="enum",
+   technique="exhaustive exploration of a fixed data set x CLI matrix (encodings x input forms x flag sets) through the real command-line code (cmd.New(args).Run in-process; every 9th invocation replayed through the cue binary built from the tree and compared), with independent format readers",
+   text="For every value of the data set (hostile strings and keys, boundary numbers, lists, nested tables, arrays of tables, mixed arrays, empty containers; TOML-safe subset for TOML) the loop export --out E -> independent reader == JSON tree, -o file.ext inference, export -> cue import -> export --out json == original, direct file / stdin / package-directory inputs, -e path and --escape is run for E in json, yaml, toml, cue; an exit-status truth table covers incomplete, conflicting and non-concrete inputs under every encoding.",
+   note="Trusts encoding/json, goccy/go-yaml + yaml.v3 (2-of-2), pelletier/go-toml as independent readers (TOML key order ignored). In-process execution of the CLI is validated against the real binary on a fixed 1-in-9 sample of invocations (stdout and exit status must agree).",
+   ref="DESIGN.md §3 C12"),
  "C09": dict(engine="enum",
    technique="bounded-exhaustive enumeration of token strings / strings x quoting forms / literal spellings on the real scanner, parser and literal package (explicit-state, no sampling)",
    text="Every token string up to the length bound, every string over a hostile rune alphabet under every quoting form and every literal-candidate spelling up to the bound is executed on the real code and checked against position invariants, Unquote(Quote(s))==s and three-way validity agreement. Exhaustive within the stated alphabet/bound; says nothing beyond it.",
